@@ -455,7 +455,7 @@ func c01BaseText(r *kernel.RNG) string {
 	switch r.Weighted([]int{5, 3, 2}) {
 	case 0:
 		t := corpusChunk(r, r.Range(1, 25))
-		if strings.Contains(t, "makeChan") {
+		if strings.Contains(t, "makeChan") || strings.Contains(t, "(dump") {
 			return "(+ 1 2)\n"
 		}
 		return t
@@ -499,7 +499,10 @@ var c01ArgPool = []string{
 var c01SpecialForms = []string{"and", "or", "cond", "quote", "def", "mdef", "fn", "defn", "begin", "let", "letseq", "assert", "defmac", "macexpand", "syntaxQuote", "for", "set", "break", "continue", "newScope", "package", "return", "_ls",
 	"struct", "func", "method", "interface", "var", "expectError", "infix", "infixExpand", ":", "comma", "range", "defmap", "++", "+=", "--", "-=", "import", "field", "if", "else", "->", "=", ":="}
 
-var c01SkipNames = map[string]bool{"<!": true, "send": true, "makeChan": true, "hf": true}
+// not called with arbitrary arguments: the blocking channel primitives, and `dump` (go-goon dumps the whole Go object
+// graph reachable from its argument - for a function or hash that is the interpreter and, through it, everything the
+// process has registered so far: minutes and gigabytes in a long-lived worker, yet bounded; a debugging aid, not a hang)
+var c01SkipNames = map[string]bool{"<!": true, "send": true, "makeChan": true, "hf": true, "dump": true}
 
 var c01Universe []string
 
